@@ -18,7 +18,7 @@ import RbModel.Lemmas.GsubMultiMixed
 import RbModel.Lemmas.GsubLigFwd
 import RbModel.Lemmas.GsubLigFlags
 import RbModel.Lemmas.GsubLigMixed
-import RbModel.Lemmas.GsubCtxFwd
+import RbModel.Lemmas.GsubCtxMixed
 
 namespace RbModel.Buf
 
@@ -1376,11 +1376,53 @@ example : (match applySubtable (recurseAt MAX_NESTING_LEVEL) true exCtxStepCtx (
     | .ok (c', ok) => (ok, (outP c'.buf ++ inP c'.buf).map (·.gid), c'.buf.outLen) == (true, [9, 11, 12, 20, 2, 3, 9, 1, 2, 4], 5)
     | .error _ => false) = true := by decide
 
+/-- **C06, lookups mixing contextual subtables with single / alternate / multiple substitution subtables (partial: glyph-flag
+    bits left out, ligature subtables not in the mix).**  The model's `Lookup` and the specification's `firstSubtable` allow
+    subtables of different kinds in one lookup (OpenType itself does not).  For a lookup each of whose subtables is contextual
+    (`CtxStOk`) or simple with non-empty sequences of at most `Rn · Gr + 1` glyphs and 16-bit ids (`NestedSts (Rn · Gr) [st]`),
+    the first subtable that applies at a glyph decides, exactly as in the OpenType model; hypotheses as in
+    `C06_context_subst_refines_spec_partial` (the potential `len · (1 + Rn · Gr) ≤ max_len` also pays for a top-level multiple
+    substitution). -/
+theorem C06_context_mixed_partial (l : Lookup) (Gr Rn : Nat) (c : Ctx)
+    (hall : ∀ st ∈ l.subtables, MixStOk c.font Gr Rn st) (hp : NoSkipFlags l.props) (fuel : Nat)
+    (hlm : c.lookupMask < 2 ^ 32) (hlmf : c.lookupMask &&& (U32MAX - Flag.DEFINED) = c.lookupMask)
+    (hrnd : c.random = false) (hps : c.perSyllable = false)
+    (hfl : c.buf.flags &&& Gen.Buf.produceUnsafeToConcat = 0)
+    (hsu : c.buf.successful = true) (hlen : c.buf.len ≤ c.buf.info.length) (hout : c.buf.out.length = c.buf.info.length)
+    (hbud : c.buf.len * (1 + Rn * Gr) ≤ c.buf.maxLen) (hops : (((c.buf.len * Rn : Nat)) : Int) ≤ c.buf.maxOps)
+    (hgl : ∀ x ∈ c.buf.info.take c.buf.len, Plain x ∧ CtxG x) :
+    ∃ c', applyString c l fuel = .ok c' ∧ c'.buf.successful = true ∧ c'.buf.len ≤ c'.buf.info.length ∧
+      (c'.buf.info.take c'.buf.len).map (fun x => (x.gid, x.cluster, featBits x.mask))
+        = (applyLookupFwd c.font c.buf.level l c.lookupMask fuel ((c.buf.info.take c.buf.len).map toG) 0).map
+            (fun g => (g.gid, g.cluster, featBits g.mask)) := by
+  rw [toG_eq_projG]
+  refine applyString_simC l (mix_not_reverse c.font Gr Rn l hall) hp C06_gen_buffer_variants.2 c (Rn * Gr) Rn hlmf ?_
+    fuel hrnd hps hfl hsu hlen hout hbud hops hgl
+  intro st hst
+  rcases hall st hst with h | h
+  · exact ctx_subSimC C06_gen_buffer_variants.2 C06_gen_buffer_variants.1 63 true c.font l hp c.lookupMask Gr Rn
+      c.buf.level hlm hlmf st h
+  · exact simple_subSimC C06_gen_buffer_variants.2 _ true c.font l c.lookupMask c.buf.level (Rn * Gr) Rn hlm hlmf st h
+
+/-! non-vacuity: a lookup with the chain format 3 subtable FIRST and a multiple substitution 1 → 11 12 13 behind it: at the first
+    "1" (backtrack 9 present) the contextual rule fires; at the second "1" (lookahead fails) the multiple substitution applies -/
+def exCtxMixLookup : Lookup :=
+  { props := 0, subtables := [.chain3 [[9]] [[1], [2]] [[3]] [(0, 1), (2, 2)], .multiple [1] [[11, 12, 13]]] }
+example : (match applyString exCtxCtx exCtxMixLookup 8 with
+    | .ok c' => (c'.buf.info.take c'.buf.len).map (·.gid) == [9, 11, 12, 20, 2, 3, 9, 11, 12, 13, 2, 4] | .error _ => false) = true := by
+  decide
+example : (applyLookupFwd exCtxFont 0 exCtxMixLookup 8 8 (exCtxInfo.map toG) 0).map (·.gid)
+    = [9, 11, 12, 20, 2, 3, 9, 11, 12, 13, 2, 4] := by decide
+example : NestedSts (2 * 2) [.multiple [1] [[11, 12, 13]]] := by
+  refine ⟨by decide, ?_, ?_⟩
+  · intro st hst cov alts he; simp only [List.mem_singleton] at hst; subst hst; cases he
+  · intro st hst ss hss; simp only [List.mem_singleton] at hst; subst hst
+    simp only [Subtable.seqsOf, List.mem_singleton] at hss; subst hss; decide
+
 /-! ### Part 7 — NOT PROVED (nothing below is claimed)
 
-  (5a) lookups that MIX contextual subtables with simple / ligature subtables: `SubSimC` instances for the other kinds are
-       missing (the simple kinds need `StepGood → StepGoodC`, i.e. the potentials under growth of a top-level multiple
-       substitution; the ligature kind needs `CtxG` / `Plain` through `ligate_input`).
+  (5a) LIGATURE subtables in a lookup that also has contextual subtables: the `SubSimC` instance is missing (it needs `CtxG` —
+       the unicode props of the ligature glyph — and the cluster hypotheses of Part 5 through `ligate_input`).
   (5b) ignore flags on the contextual lookup or default-ignorable glyphs: the skipping iterator as a filter on visibility
        (`visibleFrom` / `visibleBefore` of the Spec); `match_positions` are then not consecutive.
   (5c) nested lookups that shrink the string (empty sequences: the `delta < 0` branch of `apply_lookup`) or that are
